@@ -122,6 +122,150 @@ def analyse_push(P):
     return problems, stats
 
 
+
+def _copy_start(b, T, strip, stop_bb, problems, stats):
+    """the buffer before the pass over the segments: the EMPTY path of the kind (absolute / relative) of self"""
+    def kind_atom(t):
+        if t[0] == 'call' and len(t[2]) == 1 and strip(t[2][0])[:2] == ('arg', 1):
+            if t[1].endswith('::is_absolute'):
+                return ('ABS', False)
+            if t[1].endswith('::is_relative'):
+                return ('ABS', True)
+        return None
+    n0 = 0
+    for path, asm, stop in pathsens.paths(b, T, kind_atom, start=0, stop={stop_bb}):
+        if stop is None:
+            problems.append('the copy returns before its loop')
+            continue
+        n0 += 1
+        d = dict(asm)
+        made = []
+        for bi in path[:-1]:
+            t = b['blocks'][bi]['term']
+            if t['k'] == 'call' and t['dest']['local'] is not None:
+                c = mir.callee(t) or ''
+                if c.startswith(PRE) or c.endswith('::as_path_mut'):
+                    made.append('edit:' + c.rsplit('::', 1)[-1])
+                elif c.rsplit('::', 1)[-1] in ('to_path_buf', 'to_owned', 'into') and t['args']:
+                    x = T.operand(t['args'][0])
+                    made.append(x[1].rsplit('::', 1)[-1] if x[0] == 'item' else '?')
+                elif c.rsplit('::', 1)[-1] in ('default', 'new', 'from', 'from_vec', 'new_unchecked', 'with_capacity') and 'path' in c.lower():
+                    made.append('?')
+        want = {True: ['EMPTY_ABSOLUTE'], False: ['EMPTY']}.get(d.get('ABS'))
+        if want is None or made != want:
+            kind = {True: 'an absolute path', False: 'a relative path', None: 'a path of unknown kind (no is_absolute test on this route)'}[d.get('ABS')]
+            problems.append(f'for {kind} the copy starts from {made or "nothing recognised"} (expected: the constant {want[0] if want else "EMPTY_ABSOLUTE / EMPTY by kind"})')
+    stats['start_paths'] = n0
+    if n0 == 0:
+        problems.append('no path from the entry of the copy to its loop')
+
+
+def _tail(b, T, atom_of, is_handle, start_bb, stop, chain, problems, stats):
+    """after the last segment: the only handle operation is one push of EMPTY, exactly under  flag & path not empty"""
+    for path, asm, stp in pathsens.paths(b, T, atom_of, start=start_bb, stop=stop, init_env={l: ('atom', 'OPEN', False) for l in chain}):
+        if stp is not None:
+            problems.append('the None arm of next() leads back into the loop')
+            continue
+        stats['tail_paths'] += 1
+        d = dict(asm)
+        calls = [b['blocks'][bi]['term'] for bi in path if b['blocks'][bi]['term']['k'] == 'call' and (mir.callee(b['blocks'][bi]['term']) or '').startswith(PRE)]
+        names = [(mir.callee(t) or '').rsplit('::', 1)[-1] for t in calls]
+        ok_push = [t for t in calls if (mir.callee(t) or '') == PRE + 'push' and len(t['args']) == 2 and is_handle(T.operand(t['args'][0])) and 'EMPTY' in str(T.operand(t['args'][1]))]
+        if d.get('OPEN') is True and d.get('PATH_EMPTY') is False:
+            if not (len(calls) == 1 and len(ok_push) == 1):
+                problems.append(f'after a final "." or ".." on a non-empty path the handle operations are {names or "none"} (one push of the EMPTY segment expected: the path must end with "/")')
+        elif d.get('OPEN') is True:
+            if calls and d.get('PATH_EMPTY') is None:
+                problems.append(f'after a final "." or ".." the handle operations {names} are not guarded by an is_empty() test of the path (an EMPTY segment pushed on an empty path shows as "./")')
+            elif calls:
+                problems.append(f'after a final "." or ".." that left the path empty the handle operations are {names} (none expected)')
+        elif calls:
+            problems.append(f'after a final ordinary segment (or no segment) the handle operations are {names} (none expected)' if d.get('OPEN') is False
+                            else f'after the loop the handle operations {names} do not depend on the flag of the last symbolic_push')
+
+
+def _fold_form(P, b, T, fn, copy, src_arg, result, stats):
+    """the same fold written with Iterator::fold:  iter.fold(false, |_, segment| handle.symbolic_push(segment))"""
+    from . import terms
+    problems = []
+    folds = [(bi, t) for bi, t in P.calls(b) if (mir.callee(t) or '').endswith('Iterator::fold') and len(t['args']) == 3]
+    if len(folds) != 1:
+        return ['no loop and no single Iterator::fold over the segments: the pass over the segments was not recognised'], stats
+    fbb, ft = folds[0]
+    it, init, clo = (T.operand(a) for a in ft['args'])
+    if copy:
+        if not any(n[0] == 'call' and n[1].endswith('PathImpl::segments') and n[2] and n[2][0][:2] == ('arg', 1) for n in terms.walk(it)):
+            problems.append('the iterator that is folded is not segments() of self')
+    elif not any(n[:2] == ('arg', 2) for n in terms.walk(it)):
+        problems.append('the iterator that is folded is not the path argument')
+    for n in terms.walk(it):
+        if n[0] == 'call' and any(w in n[1] for w in ('::rev', '::skip', '::take', '::filter', '::step_by', '::chain', '::peekable')):
+            problems.append(f'the segments are not visited one by one in order ({n[1]})')
+    if init != ('int', 0):
+        problems.append(f'the fold does not start from false ({str(init)[:40]})')
+
+    def strip(x):
+        while True:
+            if x[0] in ('ref', 'deref'):
+                x = x[1]
+            elif x[0] == 'call' and len(x[2]) == 1 and x[1].rsplit('::', 1)[-1] in ('deref', 'deref_mut', 'as_path', 'as_ref', 'borrow'):
+                x = x[2][0]
+            else:
+                return x
+
+    def is_handle(x):
+        x = strip(x)
+        if not copy:
+            return x[:2] == ('arg', 1)
+        return x == result or (x[0] == 'call' and x[1].endswith('::as_path_mut') and len(x[2]) == 1 and strip(x[2][0]) == result)
+    if not (clo[0] == 'agg' and clo[1][0] == 'closure'):
+        return problems + ['the function folded over the segments is not a closure of this function'], stats
+    cb = P.bodies.get(clo[1][1])
+    if cb is None:
+        return problems + ['the body of the folding closure is not available'], stats
+    upv = list(clo[2])
+    if loop_info(cb):
+        problems.append('the folding closure contains a loop')
+    T2 = terms.Terms(cb)
+    ccalls = [(bi, t) for bi, t in P.calls(cb) if (mir.callee(t) or '').startswith(PRE)]
+    if len(ccalls) != 1 or (mir.callee(ccalls[0][1]) or '') != FN:
+        problems.append(f'one step of the fold calls {[ (mir.callee(t) or "").rsplit("::", 1)[-1] for _, t in ccalls] or "nothing"} on the handle (exactly one symbolic_push expected)')
+    else:
+        t = ccalls[0][1]
+        a0, a1 = T2.operand(t['args'][0]), T2.operand(t['args'][1])
+
+        def subst(x):
+            """closure term -> term of the enclosing function (upvars replaced by what was captured)"""
+            if x[0] == 'upvar' and x[1] < len(upv):
+                return upv[x[1]]
+            if x[0] in ('ref', 'deref'):
+                return (x[0], subst(x[1])) + tuple(x[2:])
+            if x[0] == 'call':
+                return ('call', x[1], tuple(subst(y) for y in x[2])) + tuple(x[3:])
+            return x
+        if not is_handle(subst(a0)):
+            problems.append('the step of the fold does not call symbolic_push on this handle')
+        y = a1
+        while y[0] in ('ref', 'deref'):
+            y = y[1]
+        if y[:2] != ('arg', 3):
+            problems.append('the step of the fold does not hand the current item to symbolic_push')
+        r = T2.ret()
+        if not (r[0] == 'call' and r[1] == FN):
+            problems.append('the step of the fold does not return the flag of its symbolic_push (the flag of the LAST segment must decide)')
+        stats['iteration_paths'] += 1
+
+    def atom_of(t):
+        if t[0] == 'call' and t[1].endswith('::is_empty') and len(t[2]) == 1 and is_handle(t[2][0]):
+            return ('PATH_EMPTY', False)
+        return None
+    if copy:
+        _copy_start(b, T, strip, fbb, problems, stats)
+    _tail(b, T, atom_of, is_handle, ft['target'], {-1}, [ft['dest']['local']], problems, stats)
+    if stats['tail_paths'] == 0:
+        problems.append('no path from the fold to the return')
+    return sorted(set(problems)), stats
+
 COPY = 'common::path::PathImpl::normalized'
 
 
@@ -137,11 +281,13 @@ def analyse_append(P, fn=APPEND, copy=False):
     src_arg = 1 if copy else 2
     result = T.local(0) if copy else None
     loops = loop_info(b)
+    stats = {'iteration_paths': 0, 'tail_paths': 0}
+    problems = []
+    if len(loops) == 0:
+        return _fold_form(P, b, T, fn, copy, src_arg, result, stats)
     if len(loops) != 1:
         return [f'{len(loops)} loops (1 expected: one pass over the segments)'], {}
     header = next(iter(loops))
-    stats = {'iteration_paths': 0, 'tail_paths': 0}
-    problems = []
     # the iterator: into_iter of the argument, the one `next` of the loop
     nexts = [(bi, t) for bi, t in P.calls(b) if (mir.callee(t) or '').endswith('Iterator::next') or (mir.callee(t) or '').endswith('Iterator>::next')]
     if len(nexts) != 1:
@@ -227,40 +373,7 @@ def analyse_append(P, fn=APPEND, copy=False):
                     chain.append(st['place']['local'])
         flag_locals.add(frozenset(chain))
     if copy:
-        # the buffer before the loop: the EMPTY path of the kind of self
-        def kind_atom(t):
-            if t[0] == 'call' and len(t[2]) == 1 and strip(t[2][0])[:2] == ('arg', 1):
-                if t[1].endswith('::is_absolute'):
-                    return ('ABS', False)
-                if t[1].endswith('::is_relative'):
-                    return ('ABS', True)
-            return None
-        n0 = 0
-        for path, asm, stop in pathsens.paths(b, T, kind_atom, start=0, stop={header}):
-            if stop is None:
-                problems.append('the copy returns before its loop')
-                continue
-            n0 += 1
-            d = dict(asm)
-            made = []
-            for bi in path[:-1]:
-                t = b['blocks'][bi]['term']
-                if t['k'] == 'call' and t['dest']['local'] is not None:
-                    c = mir.callee(t) or ''
-                    if c.startswith(PRE) or c.endswith('::as_path_mut'):
-                        made.append('edit:' + c.rsplit('::', 1)[-1])
-                    elif c.rsplit('::', 1)[-1] in ('to_path_buf', 'to_owned', 'into') and t['args']:
-                        x = T.operand(t['args'][0])
-                        made.append(x[1].rsplit('::', 1)[-1] if x[0] == 'item' else '?')
-                    elif c.rsplit('::', 1)[-1] in ('default', 'new', 'from', 'from_vec', 'new_unchecked', 'with_capacity') and 'path' in c.lower():
-                        made.append('?')
-            want = {True: ['EMPTY_ABSOLUTE'], False: ['EMPTY']}.get(d.get('ABS'))
-            if want is None or made != want:
-                kind = {True: 'an absolute path', False: 'a relative path', None: 'a path of unknown kind (no is_absolute test on this route)'}[d.get('ABS')]
-                problems.append(f'for {kind} the copy starts from {made or "nothing recognised"} (expected: the constant {want[0] if want else "EMPTY_ABSOLUTE / EMPTY by kind"})')
-        stats['start_paths'] = n0
-        if n0 == 0:
-            problems.append('no path from the entry of the copy to its loop')
+        _copy_start(b, T, strip, header, problems, stats)
     # the exits of the loop: the None arm of next()
     sw = b['blocks'][next_t['target']]['term']
     if sw['k'] != 'switch':
@@ -282,26 +395,7 @@ def analyse_append(P, fn=APPEND, copy=False):
                 inits.append(st['rv']['op'].get('val') if st['rv']['k'] == 'use' and st['rv']['op']['k'] == 'const' else '?')
     if inits != [0]:
         problems.append(f'outside the loop the flag of the last symbolic_push is not initialised to false and left alone (assignments: {inits})')
-    for path, asm, stop in pathsens.paths(b, T, atom_of, start=exit_bb, stop={header}, init_env={l: ('atom', 'OPEN', False) for l in chain}):
-        if stop is not None:
-            problems.append('the None arm of next() leads back into the loop')
-            continue
-        stats['tail_paths'] += 1
-        d = dict(asm)
-        calls = [b['blocks'][bi]['term'] for bi in path if b['blocks'][bi]['term']['k'] == 'call' and (mir.callee(b['blocks'][bi]['term']) or '').startswith(PRE)]
-        names = [(mir.callee(t) or '').rsplit('::', 1)[-1] for t in calls]
-        ok_push = [t for t in calls if (mir.callee(t) or '') == PRE + 'push' and len(t['args']) == 2 and is_handle(T.operand(t['args'][0])) and 'EMPTY' in str(T.operand(t['args'][1]))]
-        if d.get('OPEN') is True and d.get('PATH_EMPTY') is False:
-            if not (len(calls) == 1 and len(ok_push) == 1):
-                problems.append(f'after a final "." or ".." on a non-empty path the handle operations are {names or "none"} (one push of the EMPTY segment expected: the path must end with "/")')
-        elif d.get('OPEN') is True:
-            if calls and d.get('PATH_EMPTY') is None:
-                problems.append(f'after a final "." or ".." the handle operations {names} are not guarded by an is_empty() test of the path (an EMPTY segment pushed on an empty path shows as "./")')
-            elif calls:
-                problems.append(f'after a final "." or ".." that left the path empty the handle operations are {names} (none expected)')
-        elif calls:
-            problems.append(f'after a final ordinary segment (or no segment) the handle operations are {names} (none expected)' if d.get('OPEN') is False
-                            else f'after the loop the handle operations {names} do not depend on the flag of the last symbolic_push')
+    _tail(b, T, atom_of, is_handle, exit_bb, {header}, chain, problems, stats)
     if stats['tail_paths'] == 0:
         problems.append('no path from the end of the loop to the return')
     return sorted(set(problems)), stats
